@@ -9,6 +9,7 @@ package centrifuge
 import (
 	"fmt"
 	"math/rand"
+	"os"
 	"runtime"
 	"strconv"
 	"strings"
@@ -249,6 +250,8 @@ func c12DelayedShrinkCase(r *rand.Rand, nextID *uint64) (ic int, ops, obs []stri
 
 // ---------------------------------------------------------------- CaseW
 
+var c12Debug = os.Getenv("VERIF_DEBUG") != ""
+
 type c12Notif struct {
 	kind  int // 0 arrive, 1 enqDone, 2 closeDone
 	who   string
@@ -328,6 +331,9 @@ func c12Res(d *Disconnect) string {
 }
 
 func (c *c12W) log(e c12Ev, term string) {
+	if c12Debug {
+		fmt.Printf("  ev %+v  [gate=%q qlen=%d armed=%v alive=%v wclosed=%v closer=%d pending=%d]\n", e, c.gate, c.qlen, c.armed, c.alive, c.wclosed, c.closerID, len(c.pending))
+	}
 	c.evs = append(c.evs, e)
 	c.coq = append(c.coq, term)
 }
@@ -532,6 +538,9 @@ func c12RunW(r *rand.Rand, nextID *uint64) (cfgTerm string, c *c12W, finalLen in
 	}
 	c.initCap = []int{0, 1, 2, 4}[r.Intn(4)]
 	c.start()
+	if c12Debug {
+		fmt.Printf("case mode=%d maxFrames=%d maxQ=%d shrink=%d initCap=%d\n", c.mode, c.maxFrames, c.maxQ, c.shrink, c.initCap)
+	}
 
 	gen := func(n int, cap int) []c12Item {
 		its := make([]c12Item, n)
